@@ -211,6 +211,7 @@ type World struct {
 	// informer model for pods: q1 = deltas not yet applied to the lister, q2 = notifications not yet handled
 	Lag      bool
 	q1       []PodEvent
+	applied  []PodEvent // every event the pod cache has applied so far, in order (a stale restart rebuilds the cache from a prefix)
 	q2       []PodEvent
 	Pending  []*pendingUnbind // unbind work popped from the plugin's channel
 	lagOther bool
@@ -636,6 +637,7 @@ func (w *World) syncPodListerLocked(n int) int {
 		if ev.Kind != "add" { // AddPod does nothing in galaxy-ipam
 			w.q2 = append(w.q2, ev)
 		}
+		w.applied = append(w.applied, ev)
 		done++
 	}
 	return done
@@ -1049,6 +1051,41 @@ func (w *World) Restart() error {
 	}
 	w.fault = nil
 	w.FipEvents = nil // a fresh informer lists the store; the new IPAM reads it in ConfigurePool
+	return w.StartPlugin()
+}
+
+// RestartStale is a restart (or a leader change) whose fresh pod informer is served from a lagging watch cache of the API server:
+// the pod cache of the new instance is as far behind as the old one was; the IPAM state is read from the store as always.
+func (w *World) RestartStale(back int) error {
+	w.mu.Lock()
+	w.q2 = nil // the new informer has no backlog of handler notifications; what it has not seen yet arrives as it catches up
+	// the list the new informer starts from may even be OLDER than what the previous instance had seen: take the last `back` cache
+	// updates back (the cache is rebuilt from the applied history) and let them arrive again later
+	if back > len(w.applied) {
+		back = len(w.applied)
+	}
+	if back > 0 {
+		keep := w.applied[:len(w.applied)-back]
+		redo := append([]PodEvent{}, w.applied[len(w.applied)-back:]...)
+		_ = w.podIdx.Replace(nil, "")
+		for _, ev := range keep {
+			switch ev.Kind {
+			case "add", "update":
+				_ = w.podIdx.Update(ev.New)
+			case "delete":
+				_ = w.podIdx.Delete(ev.Old)
+			}
+		}
+		w.applied = append([]PodEvent{}, keep...)
+		w.q1 = append(redo, w.q1...)
+	}
+	w.mu.Unlock()
+	w.Pending = nil
+	for _, p := range w.AllPods {
+		p.Filtered = nil
+	}
+	w.fault = nil
+	w.FipEvents = nil
 	return w.StartPlugin()
 }
 
